@@ -575,7 +575,8 @@ class DocumentationAggregator(CMakeListener):
             command = ctx.command_invocation().Identifier().getText().lower()
             self.consumed.append(ctx.command_invocation())
             self.consumed.append(ctx.bracket_doccomment())
-            if f"process_{command}" in dir(self):
+            # process_generic_command() is the fallback, not the processor of a command with that name
+            if command != "generic_command" and f"process_{command}" in dir(self):
                 getattr(self, f"process_{command}")(ctx.command_invocation(), cleaned_doc)
             else:
                 self.process_generic_command(command, ctx.command_invocation(), cleaned_doc)
@@ -631,7 +632,8 @@ class DocumentationAggregator(CMakeListener):
                     self.definition_command_stack.append(DefinitionCommand(None, False))
             elif command == "endfunction" or command == "endmacro":
                 self.definition_command_stack.pop()
-            elif command != "set" and f"process_{command}" in dir(self) and ctx not in self.consumed:
+            elif (command != "set" and command != "generic_command"
+                  and f"process_{command}" in dir(self) and ctx not in self.consumed):
                 if self.settings.input.__dict__[f"include_undocumented_{command}"]:
                     getattr(self, f"process_{command}")(ctx, "")
                 elif command == "function" or command == "macro":
